@@ -146,7 +146,10 @@ def run(ctx):
                 if e_kind != "default":
                     extra.setdefault("pars", {})["e"] = xu.with_unit({"short": Kipping13Short, "long": Kipping13Long}[e_kind]("e"), u.one)
                 desc["e_prior"] = e_kind
-                prior = JokerPrior.default(P_min=gen.conv(Pmin_d, "d", pu) * gen.U(pu), P_max=gen.conv(Pmax_d, "d", pu) * gen.U(pu),
+                # the two bounds of the period prior may be quoted in different units (1.5 d ... 2 yr); the variable is in P_min's
+                pu_max = pu if (i + ctx.shard) % 3 else str(rng.choice([x for x in ["d", "yr", "h"] if x != pu]))
+                desc["P_max_unit"] = pu_max
+                prior = JokerPrior.default(P_min=gen.conv(Pmin_d, "d", pu) * gen.U(pu), P_max=gen.conv(Pmax_d, "d", pu_max) * gen.U(pu_max),
                                            sigma_K0=sK0 * gen.U(ku), P0=P0 * gen.U(P0u),
                                            sigma_v=[sv * u.km / u.s / u.day ** k for k, sv in enumerate(svs)],
                                            poly_trend=poly, v0_offsets=offs or None, model=model, **extra)
